@@ -142,7 +142,7 @@ _hist("C04", [{"name": "ta-memory", "pkg": RESMGR, "run": "^TestVerifC04TA$", "r
 _hist("C09", [{"name": "ta-leaks", "pkg": RESMGR, "run": "^TestVerifC09TA$", "replay_run": "^TestVerifC09TAReplay$", "q": 200, "t": 40000, "per_proc": 500}],
       "rapid stateful histories with failing requests and reconfigure/synchronize while stopped containers are cached, followed by a generated drain; oracle = state after the drain equals a pristine instance of the final configuration, and no grant/membership/memory request ever belongs to a non-live container",
       "non-trivial = the history had >= 1 failed request and >= 1 reconfigure/synchronize while a stopped container was still cached")
-_hist("C12", [{"name": "ta-optouts", "pkg": RESMGR, "run": "^TestVerifC12TA$", "replay_run": "^TestVerifC12TAReplay$", "q": 200, "t": 40000, "per_proc": 500}],
+_hist("C12", [{"name": "ta-optouts", "pkg": RESMGR, "run": "^TestVerifC12TA$", "replay_run": "^TestVerifC12TAReplay$", "q": 300, "t": 40000, "per_proc": 500}],
       "rapid stateful histories in which a third of the pods carry cpu.preserve/memory.preserve (container, pod or bare form) or pinning is configured off; oracle = every adjustment/update/push addressed to an opted-out container is inspected before it is applied to the runtime model",
       "non-trivial = an opted-out container existed while a later request changed the told cpuset or memory nodes of another container")
 _hist("C02", [{"name": "balloons", "pkg": RESMGR, "run": "^TestVerifC02$", "replay_run": "^TestVerifC02Replay$", "q": 250, "t": 48000, "per_proc": 500}],
@@ -153,7 +153,7 @@ def _add_unit(prop, unit):
 _add_unit("C05", {"name": "balloons-histories", "pkg": RESMGR, "run": "^TestVerifC05Balloons$", "replay_run": "^TestVerifC05BalloonsReplay$", "q": 200, "t": 40000, "per_proc": 500})
 _add_unit("C04", {"name": "balloons-memory", "pkg": RESMGR, "run": "^TestVerifC04Balloons$", "replay_run": "^TestVerifC04BalloonsReplay$", "q": 200, "t": 40000, "per_proc": 500})
 _add_unit("C09", {"name": "balloons-leaks", "pkg": RESMGR, "run": "^TestVerifC09Balloons$", "replay_run": "^TestVerifC09BalloonsReplay$", "q": 200, "t": 40000, "per_proc": 500})
-_add_unit("C12", {"name": "balloons-optouts", "pkg": RESMGR, "run": "^TestVerifC12Balloons$", "replay_run": "^TestVerifC12BalloonsReplay$", "q": 200, "t": 40000, "per_proc": 500})
+_add_unit("C12", {"name": "balloons-optouts", "pkg": RESMGR, "run": "^TestVerifC12Balloons$", "replay_run": "^TestVerifC12BalloonsReplay$", "q": 350, "t": 40000, "per_proc": 500})
 _add_unit("C12", {"name": "ta-optouts-restart", "pkg": RESMGR, "run": "^TestVerifC12RestartTA$", "replay_run": "^TestVerifC11Replay$", "q": 120, "t": 16000, "per_proc": 500})
 _add_unit("C12", {"name": "balloons-optouts-restart", "pkg": RESMGR, "run": "^TestVerifC12RestartBalloons$", "replay_run": "^TestVerifC11Replay$", "q": 120, "t": 16000, "per_proc": 500})
 _hist("C13", [
@@ -161,8 +161,8 @@ _hist("C13", [
     {"name": "identical-balloons", "pkg": RESMGR, "run": "^TestVerifC13IdenticalBalloons$", "replay_run": "^TestVerifC13IdenticalBalloonsReplay$", "q": 120, "t": 24000, "per_proc": 500},
     {"name": "accepted-ta", "pkg": RESMGR, "run": "^TestVerifC13AcceptedTA$", "replay_run": "^TestVerifC13AcceptedTAReplay$", "q": 120, "t": 24000, "per_proc": 500},
     {"name": "accepted-balloons", "pkg": RESMGR, "run": "^TestVerifC13AcceptedBalloons$", "replay_run": "^TestVerifC13AcceptedBalloonsReplay$", "q": 120, "t": 24000, "per_proc": 500},
-    {"name": "rejected-ta", "pkg": RESMGR, "run": "^TestVerifC13RejectedTA$", "replay_run": "^TestVerifC13RejectedReplay$", "q": 80, "t": 16000, "per_proc": 300},
-    {"name": "rejected-balloons", "pkg": RESMGR, "run": "^TestVerifC13RejectedBalloons$", "replay_run": "^TestVerifC13RejectedReplay$", "q": 80, "t": 16000, "per_proc": 300},
+    {"name": "rejected-ta", "pkg": RESMGR, "run": "^TestVerifC13RejectedTA$", "replay_run": "^TestVerifC13RejectedReplay$", "q": 120, "t": 16000, "per_proc": 300},
+    {"name": "rejected-balloons", "pkg": RESMGR, "run": "^TestVerifC13RejectedBalloons$", "replay_run": "^TestVerifC13RejectedReplay$", "q": 120, "t": 16000, "per_proc": 300},
   ],
   "rapid stateful histories with configuration updates at generated request boundaries; (a) identical: observables (runtime view, cache view, zones) before/after re-delivering the configuration in effect; (b) rejected: sequential twin executions with and without the rejected update (differential, guarded by a determinism self-check); (c) accepted: all invariant libraries of C01-C05/C09 evaluated on the step of the update under the new configuration",
   "non-trivial = (a)/(c) the update arrived with >= 2 live containers (one holding exclusive CPUs or sitting in a user balloon for (a)); (b) the injected update (one of 6-8 rejection kinds per policy) was rejected",
